@@ -370,7 +370,9 @@ func (t *Tr) retErr(e ast.Expr) string {
 }
 
 // errBody translates a statement list of a `func(...) error` made of
-//   if C { return E }      err := f(x); if err != nil { return err }      return E
+//
+//	if C { return E }      err := f(x); if err != nil { return err }      return E
+//
 // into a Lean Bool expression (true = nil).
 func (t *Tr) errBody(stmts []ast.Stmt) string {
 	if len(stmts) == 0 {
